@@ -6,6 +6,27 @@ from units.u_localcall import UNIT as LC
 TL = "crates/compiler/src/typer/toplevel.rs"
 base = [it for it in LC.items if not isinstance(it, Fn)]
 
+def ENUM_LOOPS(header):
+    mt = re.search(r"__mi(\d+)", header)
+    if mt and "variants" in header:
+        n = mt.group(1)
+        return (f"invariant __mi{n} <= enum_def.variants.len(), __mo{n}@.len() == __mi{n},\n"
+                f"  forall|j: int| 0 <= j < __mi{n} ==> (#[trigger] __mo{n}@[j]).0.0@ == enum_def.variants@[j].0.text() && tys_of(enum_def.variants@[j].1@, __mo{n}@[j].1@),\n decreases enum_def.variants.len() - __mi{n},")
+    if mt and "generics" in header:
+        n = mt.group(1)
+        return (f"invariant __mi{n} <= enum_def.generics.len(), __mo{n}@.len() == __mi{n},\n"
+                f"  forall|j: int| 0 <= j < __mi{n} ==> (#[trigger] __mo{n}@[j]).0@ == enum_def.generics@[j].text(),\n decreases enum_def.generics.len() - __mi{n},")
+    if mt:      # the payload types of ONE variant (the closure's own `typs`)
+        n = mt.group(1)
+        c = re.search(r"<\s*(\w+)\s*\.len\(\)", header).group(1)
+        return (f"invariant __mi{n} <= {c}.len(), __mo{n}@.len() == __mi{n},\n"
+                f"  forall|j: int| 0 <= j < __mi{n} ==> #[trigger] __mo{n}@[j] == hir_ty({c}@[j]),\n decreases {c}.len() - __mi{n},")
+    mf = re.search(r"while\s+(__fk\d+)\s*<\s*(\w+)\.len\(\)", header)
+    if mf:      # `for ty in typs.iter() { validate_ty(..) }`: nothing changes
+        return f"invariant {mf.group(1)} <= {mf.group(2)}.len(),\n decreases {mf.group(2)}.len() - {mf.group(1)},"
+    return None
+
+
 UNIT = Unit(
     name="U-FNBODY",
     properties=["C03"],
@@ -73,5 +94,32 @@ UNIT = Unit(
            contract="ensures scheme_declared(*func, final(env).func_scheme(func.name@)),",
            loop_fn=lambda k, header, kw: (lambda mt: (f"invariant __mi{mt.group(1)} <= func.params.len(), __mo{mt.group(1)}@.len() == __mi{mt.group(1)},\n"
                f"  forall|j: int| 0 <= j < __mi{mt.group(1)} ==> #[trigger] __mo{mt.group(1)}@[j] == hir_ty(func.params@[j].1),\n decreases func.params.len() - __mi{mt.group(1)},") if mt else None)(re.search(r"__mi(\d+)", header))),
+        Adt(file="crates/compiler/src/env.rs", kw="struct", name="StructDef", rules=["attrs", ("strip", "tast::")]),
+        Adt(file="crates/compiler/src/env.rs", kw="struct", name="EnumDef", rules=["attrs", ("strip", "tast::")]),
+        Fn(file=TL, name="define_struct", attrs="#[verifier::loop_isolation(false)]",
+           pre_rewrites=[("struct_def: &hir::StructDef,", "struct_def: &HirStructDef,", 1), ("tast::Ty::from_hir(env, ", "ty_from_hir(env, ", "*"),
+                         (re.compile(r"\|\((\w+), (\w+)\)\| \{"), r"|__nt| { let \1 = &__nt.0; let \2 = &__nt.1;", "*"),
+                         (re.compile(r"env\.current_mut\(\)\.insert_struct\(env::StructDef \{"), "insert_struct(env, StructDef {", 1)],
+           rewrites=[(re.compile(r"let params_env: Vec<TastIdent> = \{ let mut (__mo\d+) = Vec::new\(\);"), r"let params_env: Vec<TastIdent> = { let mut \1: Vec<TastIdent> = Vec::new();", "*"),
+                     (re.compile(r"let fields = \{ let mut (__mo\d+) = Vec::new\(\);"), r"let fields = { let mut \1: Vec<(TastIdent, Ty)> = Vec::new();", "*"),
+                     (re.compile(r"generics: \{ let mut (__mo\d+) = Vec::new\(\);"), r"generics: { let mut \1: Vec<TastIdent> = Vec::new();", "*")],
+           obligation="the recorded struct definition has the written name, type parameters and, field by field in order, the written field name and the type its annotation denotes",
+           contract="ensures struct_declared(*struct_def, final(env).struct_def(struct_def.name.text())),",
+           loop_fn=lambda k, header, kw: (lambda mt: (
+               (f"invariant __mi{mt.group(1)} <= struct_def.fields.len(), __mo{mt.group(1)}@.len() == __mi{mt.group(1)},\n"
+                f"  forall|j: int| 0 <= j < __mi{mt.group(1)} ==> (#[trigger] __mo{mt.group(1)}@[j]).0.0@ == struct_def.fields@[j].0.text() && __mo{mt.group(1)}@[j].1 == hir_ty(struct_def.fields@[j].1),\n decreases struct_def.fields.len() - __mi{mt.group(1)},")
+               if "fields" in header else
+               (f"invariant __mi{mt.group(1)} <= struct_def.generics.len(), __mo{mt.group(1)}@.len() == __mi{mt.group(1)},\n"
+                f"  forall|j: int| 0 <= j < __mi{mt.group(1)} ==> (#[trigger] __mo{mt.group(1)}@[j]).0@ == struct_def.generics@[j].text(),\n decreases struct_def.generics.len() - __mi{mt.group(1)},")) if mt else None)(re.search(r"__mi(\d+)", header))),
+        Fn(file=TL, name="define_enum", attrs="#[verifier::loop_isolation(false)]", rules=["attrs", "fmtmsg", ("strip", "tast::"), ("strip", "hir::"), "iter_map_collect", "for_index"],
+           pre_rewrites=[("enum_def: &hir::EnumDef", "enum_def: &HirEnumDef", 1), ("tast::Ty::from_hir(env, ", "ty_from_hir(env, ", "*"), (".collect::<Vec<_>>();", ".collect();", "*"),
+                         (re.compile(r"\|\((\w+), (\w+)\)\| \{"), r"|__nt| { let \1 = &__nt.0; let \2 = &__nt.1;", "*"),
+                         (re.compile(r"env\.current_mut\(\)\.insert_enum\(env::EnumDef \{"), "insert_enum(env, EnumDef {", 1)],
+           rewrites=[(re.compile(r"let mut (__mo\d+) = Vec::new\(\); let mut (__mi\d+): usize = 0; while \2 < ([\w\s\.]+?)\.len\(\)"),
+                      lambda mt: (f"let mut {mt.group(1)}: Vec<" + ("TastIdent" if "generics" in mt.group(3) else "(TastIdent, Vec<Ty>)" if "variants" in mt.group(3) else "Ty") +
+                                  f"> = Vec::new(); let mut {mt.group(2)}: usize = 0; while {mt.group(2)} < {mt.group(3)}.len()"), "*")],
+           obligation="the recorded enum definition has the written name, type parameters and, variant by variant in order, the written variant name and the types its payload annotations denote",
+           contract="ensures enum_declared(*enum_def, final(env).enum_def(enum_def.name.text())),",
+           loop_fn=lambda k, header, kw, body="": ENUM_LOOPS(header)),
     ],
 )
